@@ -242,17 +242,21 @@ package dns
 //@   pure
 //@   fresh
 //@ extern (*strings.Builder).Len
-//@   ensures ret0 >= 0
+//@   ensures ret0 >= 0 && ret0 == ghost(b, "len")
 //@   pure
 //@ extern (*strings.Builder).String
+//@   ensures len(ret0) == ghost(b, "len")
 //@   pure
-// a strings.Builder writes only into itself
+// a strings.Builder writes only into itself; ghost "len" is the number of octets written so far
 //@ extern (*strings.Builder).WriteByte
-//@   modifies H.strings.Builder.addr.v@b H.strings.Builder.buf.cap@b H.strings.Builder.buf.len@b H.strings.Builder.buf.off@b H.strings.Builder.buf.ref@b
+//@   ensures ghost(b, "len") == old(ghost(b, "len")) + 1
+//@   modifies H.strings.Builder.addr.v@b H.strings.Builder.buf.cap@b H.strings.Builder.buf.len@b H.strings.Builder.buf.off@b H.strings.Builder.buf.ref@b G.strings.Builder.len@b
 //@ extern (*strings.Builder).WriteString
-//@   modifies H.strings.Builder.addr.v@b H.strings.Builder.buf.cap@b H.strings.Builder.buf.len@b H.strings.Builder.buf.off@b H.strings.Builder.buf.ref@b
+//@   ensures ghost(b, "len") == old(ghost(b, "len")) + len(s)
+//@   modifies H.strings.Builder.addr.v@b H.strings.Builder.buf.cap@b H.strings.Builder.buf.len@b H.strings.Builder.buf.off@b H.strings.Builder.buf.ref@b G.strings.Builder.len@b
 //@ extern (*strings.Builder).Write
-//@   modifies H.strings.Builder.addr.v@b H.strings.Builder.buf.cap@b H.strings.Builder.buf.len@b H.strings.Builder.buf.off@b H.strings.Builder.buf.ref@b
+//@   ensures ghost(b, "len") == old(ghost(b, "len")) + len(p)
+//@   modifies H.strings.Builder.addr.v@b H.strings.Builder.buf.cap@b H.strings.Builder.buf.len@b H.strings.Builder.buf.off@b H.strings.Builder.buf.ref@b G.strings.Builder.len@b
 //@ extern (*strings.Builder).Grow
 //@   modifies H.strings.Builder.addr.v@b H.strings.Builder.buf.cap@b H.strings.Builder.buf.len@b H.strings.Builder.buf.off@b H.strings.Builder.buf.ref@b
 
